@@ -470,12 +470,19 @@ def get_hint_pep_sign_ambiguous_or_none(hint: Hint) -> Optional[HintSign]:
         # types or callables to their identifying signs if that package is
         # recognized *OR* the empty dictionary otherwise (i.e., if the package
         # defining this hint is unrecognized).
+        #
+        # Note that some callables (e.g., C-based method wrappers like
+        # "object().__init__") define *NEITHER* the "__module__" nor
+        # "__qualname__" dunder attributes. Accessing these attributes directly
+        # would raise a non-human-readable "AttributeError" rather than allow
+        # these objects to be rejected as invalid hints elsewhere.
         hint_basename_to_sign = HINT_MODULE_NAME_TO_HINT_BASENAME_TO_SIGN.get(
-            hint.__module__, FROZENDICT_EMPTY)
+            getattr(hint, '__module__', ''), FROZENDICT_EMPTY)
 
         # Sign identifying this hint if this hint is identifiable by its
         # basename *OR* "None" otherwise.
-        hint_sign = hint_basename_to_sign.get(hint.__qualname__)
+        hint_sign = hint_basename_to_sign.get(
+            getattr(hint, '__qualname__', ''))
         # print(f'hint: {hint}')
         # print(f'hint_sign [by self]: {hint_sign}')
         # print(f'lookup table: {HINT_MODULE_NAME_TO_HINT_BASENAME_TO_SIGN}')
